@@ -170,6 +170,138 @@ func GenSpec(r *Rand, edits int) (M, []string) {
 	return doc, applied
 }
 
+// warning-only edits: conditions the specification validator reports as warnings, never as errors. Applying them to a
+// document must leave its error set and verdict unchanged ("warnings alone never make a document invalid").
+const nWarnEdits = 7
+
+func applyWarnEdit(r *Rand, doc M, kind int) string {
+	defs, _ := doc["definitions"].(M)
+	paths, _ := doc["paths"].(M)
+	var plain []string
+	for _, n := range sortedKeys(defs) {
+		if d, ok := defs[n].(M); ok && d["properties"] != nil {
+			plain = append(plain, n)
+		}
+	}
+	anyOp := func() M {
+		pn := sortedKeys(paths)
+		if len(pn) == 0 {
+			return nil
+		}
+		item, _ := paths[pick(r, pn)].(M)
+		ms := sortedKeys(item)
+		if len(ms) == 0 {
+			return nil
+		}
+		op, _ := item[pick(r, ms)].(M)
+		return op
+	}
+	sfx := fmt.Sprint(r.Intn(3))
+	switch kind {
+	case 0: // example its schema rejects
+		if len(plain) > 0 {
+			n := pick(r, plain)
+			defs[n].(M)["properties"].(M)["wex"+n] = M{"type": "integer", "example": "notanint"}
+			return "w-bad-example:" + n
+		}
+	case 1: // required and readOnly, declared among the properties
+		if len(plain) > 0 {
+			n := pick(r, plain)
+			d := defs[n].(M)
+			if d["properties"].(M)["wro"+n] != nil {
+				return "" // already there: listing it twice in "required" would be an error of its own
+			}
+			d["properties"].(M)["wro"+n] = M{"type": "string", "readOnly": true}
+			req, _ := d["required"].([]any)
+			d["required"] = append(req, "wro"+n)
+			return "w-readonly-required:" + n
+		}
+	case 2: // required and readOnly, declared by the schema given as additionalProperties (one or two levels down)
+		if len(plain) > 0 {
+			n := pick(r, plain)
+			d := defs[n].(M)
+			if d["additionalProperties"] == nil {
+				inner := M{"type": "object", "properties": M{"wap" + n: M{"type": "string", "readOnly": true}}}
+				if r.Chance(300) {
+					inner = M{"type": "object", "additionalProperties": inner}
+				}
+				d["additionalProperties"] = inner
+				req, _ := d["required"].([]any)
+				d["required"] = append(req, "wap"+n)
+				return "w-readonly-required-additional:" + n
+			}
+		}
+	case 3: // example the inline schema of a response rejects
+		if op := anyOp(); op != nil {
+			if resp, ok := op["responses"].(M); ok {
+				if one, ok := resp["200"].(M); ok && one["schema"] == nil && one["$ref"] == nil {
+					one["schema"] = M{"type": "object", "properties": M{"wn": M{"type": "integer"}}}
+					one["examples"] = M{"application/json": M{"wn": "bad" + sfx}}
+					return "w-bad-response-example"
+				}
+			}
+		}
+	case 4: // required parameter with a default
+		if op := anyOp(); op != nil {
+			// only next to parameters that are there already (a missing or null list is the document's own business), once
+			if ps, _ := op["parameters"].([]any); len(ps) > 0 && !strings.Contains(js(ps), `"wrq`) {
+				op["parameters"] = append(ps, M{"name": "wrq" + sfx, "in": "query", "type": "string", "required": true, "default": "x"})
+				return "w-required-has-default"
+			}
+		}
+	case 5: // an unused definition / shared parameter / shared response
+		switch r.Intn(3) {
+		case 0:
+			defs["WUnused"+sfx] = M{"type": "object", "properties": M{"u": M{"type": "string"}}}
+		case 1:
+			ps, _ := doc["parameters"].(M)
+			if ps == nil {
+				ps = M{}
+				doc["parameters"] = ps
+			}
+			ps["wunused"+sfx] = M{"name": "wu" + sfx, "in": "query", "type": "string"}
+		default:
+			rs, _ := doc["responses"].(M)
+			if rs == nil {
+				rs = M{}
+				doc["responses"] = rs
+			}
+			rs["WUnused"+sfx] = M{"description": "unused"}
+		}
+		return "w-unused"
+	case 6: // examples for a media type other than application/json
+		if op := anyOp(); op != nil {
+			if resp, ok := op["responses"].(M); ok {
+				if one, ok := resp["200"].(M); ok && one["examples"] == nil && one["$ref"] == nil {
+					if one["schema"] == nil {
+						one["schema"] = M{"type": "string"}
+					}
+					one["examples"] = M{"text/plain": "x"}
+					return "w-examples-mime"
+				}
+			}
+		}
+	}
+	return ""
+}
+
+// GenSpecTwin builds a document and its twin: the same document plus 1..3 warning-only conditions.
+func GenSpecTwin(r *Rand, edits int) (base M, withWarnings M) {
+	base, _ = GenSpec(r, edits)
+	var cp M
+	_ = json.Unmarshal([]byte(js(base)), &cp)
+	n := 0
+	for i := 0; i < 6 && n < r.Range(1, 3); i++ {
+		if applyWarnEdit(r, cp, r.Intn(nWarnEdits)) != "" {
+			n++
+		}
+	}
+	if n == 0 {
+		return base, nil
+	}
+	return base, cp
+}
+
 // simpleNoBadPattern: a simple schema for a query parameter without invalid regular expressions
 func (g *Gen) simpleNoBadPattern(s M) {
 	g.simple(s, 2, true)
@@ -417,7 +549,7 @@ func applyEdit(r *Rand, doc M, kind int) string {
 
 // applyEdit2: the rarer rules (one offender per call; the caller repeats kinds so that several offenders of one rule
 // meet in one document, which is what makes order-dependent early exits and message texts visible).
-const nEditKinds2 = 19
+const nEditKinds2 = 21
 
 func applyEdit2(r *Rand, doc M, kind int, anyOp func() (string, string, M), plainDef func() (string, M)) string {
 	paths, _ := doc["paths"].(M)
@@ -438,8 +570,18 @@ func applyEdit2(r *Rand, doc M, kind int, anyOp func() (string, string, M), plai
 			return nil
 		}
 		resp, _ := op["responses"].(M)
-		ok, _ := resp["200"].(M)
-		return ok
+		if resp == nil {
+			return nil
+		}
+		// any inline status-code response of the operation; now and then a new one (several responses per operation, of
+		// which only some break a rule)
+		code := pick(r, []string{"200", "200", "201", "404"})
+		one, _ := resp[code].(M)
+		if one == nil && code != "200" {
+			one = M{"description": "r" + code}
+			resp[code] = one
+		}
+		return one
 	}
 	addHeader := func(name string, h M) bool {
 		ok := okOf()
@@ -562,6 +704,30 @@ func applyEdit2(r *Rand, doc M, kind int, anyOp func() (string, string, M), plai
 	case 17: // parameter with a default its simple schema rejects
 		if addParam(M{"name": "bd" + sfx, "in": "query", "type": "integer", "default": "bad" + sfx}) {
 			return "bad-param-default"
+		}
+	case 19: // response schema that is an array without items, or whose items carry a pattern that does not compile
+		if ok := okOf(); ok != nil {
+			if r.Chance(500) {
+				ok["schema"] = M{"type": "array"}
+				return "response-array-no-items"
+			}
+			ok["schema"] = M{"type": "array", "items": M{"type": "string", "pattern": "("}}
+			return "response-items-bad-pattern"
+		}
+	case 20: // a declared path parameter whose pattern does not compile
+		for _, p := range sortedKeys(paths) {
+			item, _ := paths[p].(M)
+			for _, m := range sortedKeys(item) {
+				op, _ := item[m].(M)
+				ps, _ := op["parameters"].([]any)
+				for _, q := range ps {
+					if qm, ok := q.(M); ok && qm["in"] == "path" && qm["pattern"] == nil && r.Chance(600) {
+						qm["type"] = "string"
+						qm["pattern"] = "("
+						return "bad-path-param-pattern"
+					}
+				}
+			}
 		}
 	case 18: // a parameter in the shared #/parameters section that is broken (bad default) and used by an operation
 		ps, _ := doc["parameters"].(M)
@@ -726,7 +892,7 @@ func specOp(r *Rand) Op {
 	if ids := FixtureIDs(); len(ids) > 0 && r.Chance(250) {
 		op.Doc = pick(r, ids)
 	} else {
-		doc, _ := GenSpec(r, pick(r, []int{0, 0, 1, 1, 2, 3}))
+		doc, _ := GenSpec(r, pick(r, []int{0, 0, 1, 1, 2, 3, 5}))
 		op.Doc = js(doc)
 	}
 	if r.Chance(600) {
